@@ -119,6 +119,8 @@ Theorem apply_filters_is_filter : forall mode fl objs r,
 Proof. exact apply_filters_ok. Qed.
 Print Assumptions apply_filters_is_filter.
 
+(* (definitional in the model: one unfolding of holds_b / all_hold; kept as the reading of `holds_b`
+   that the other statements use) *)
 Theorem answer_iff_every_filter_holds : forall mode fl o,
   holds_b mode fl o = true <-> (forall f, In f fl -> check_filter mode f o = Ok true).
 Proof. exact holds_b_true. Qed.
@@ -257,6 +259,41 @@ Theorem op_semantics_in_list : forall mode f x l,
 Proof. exact op_in_list. Qed.
 Print Assumptions op_semantics_in_list.
 
+(* `contains`: on a list value the filter value is == one of the elements; with a dict as filter value on
+   a dict property it is == one of the property's values; with a string on a dict property it is one of
+   the keys; on a string it is a substring (op_semantics_strings); a list-valued PROPERTY is asked element
+   by element ("any element": labels contains "x" holds when "x" is a substring of one label) *)
+Theorem op_semantics_contains_list : forall mode f l,
+  fop_ f = OContains -> (forall d, fval f <> VDict d) ->
+  check_property mode f (VList l) = Ok (existsb (py_eq (fval f)) l).
+Proof. exact op_contains_list. Qed.
+Print Assumptions op_semantics_contains_list.
+
+Theorem op_semantics_contains_dict_value : forall mode f d m,
+  fop_ f = OContains -> fval f = VDict d ->
+  check_property mode f (VDict m) = Ok (existsb (py_eq (VDict d)) (map snd m)).
+Proof. exact op_contains_dict_value. Qed.
+Print Assumptions op_semantics_contains_dict_value.
+
+Theorem op_semantics_contains_dict_key : forall mode f k m,
+  fop_ f = OContains -> fval f = VStr k ->
+  check_property mode f (VDict m) = Ok (match plookup k m with Some _ => true | None => false end).
+Proof. exact op_contains_dict_key. Qed.
+Print Assumptions op_semantics_contains_dict_key.
+
+Theorem op_semantics_list_property_any_element : forall mode f p m l,
+  split_dot (fprop f) = [p] -> plookup p m = Some (VList l) ->
+  check_filter mode f (VDict m) = any_res (check_property mode f) l.
+Proof. exact op_contains_on_list_property. Qed.
+Print Assumptions op_semantics_list_property_any_element.
+
+(* = and != between values of different kinds: never equal (whenever no timestamp conversion applies) *)
+Theorem op_semantics_eq_other_kind : forall mode f x,
+  kind_of x <> kind_of (fval f) -> coerce mode (fop_ f) x (fval f) = Ok (x, fval f) ->
+  (fop_ f = OEq -> check_property mode f x = Ok false) /\ (fop_ f = ONe -> check_property mode f x = Ok true).
+Proof. exact op_eq_other_kind. Qed.
+Print Assumptions op_semantics_eq_other_kind.
+
 (* timestamp strings compared as instants *)
 Theorem ts_on_objects : forall mode f t s t',
   fval f = VStr s -> parse_ts s = Some t' -> is_cmp_op (fop_ f) = true ->
@@ -300,6 +337,16 @@ Theorem ts_on_dicts_refuted :
     s = u "2020-01-01T00:00:00.5Z".
 Proof. exact ts_on_dicts_refuted_lemma. Qed.
 Print Assumptions ts_on_dicts_refuted.
+
+(* the same on a concrete pair: "...00Z" > "...00.5Z" as text although the first instant is the earlier;
+   the repaired variant answers False *)
+Theorem ts_on_dicts_refuted_witness :
+  parse_ts (u "2020-01-01T00:00:00Z") = Some 1577836800000000%Z /\
+  parse_ts (u "2020-01-01T00:00:00.5Z") = Some 1577836800500000%Z /\
+  check_property TextOnDicts (F "modified" OGt (vs "2020-01-01T00:00:00.5Z")) (vs "2020-01-01T00:00:00Z") = Ok true /\
+  check_property InstantOnDicts (F "modified" OGt (vs "2020-01-01T00:00:00.5Z")) (vs "2020-01-01T00:00:00Z") = Ok false.
+Proof. exact ts_on_dicts_refuted_concrete. Qed.
+Print Assumptions ts_on_dicts_refuted_witness.
 
 (* ---- the hypotheses are satisfiable (with a non-empty answer) ---- *)
 
